@@ -75,6 +75,7 @@ SYSTEM_FLAG_MAP = {
 }
 
 REV_SYSTEM_FLAG_MAP = {v: k for k, v in SYSTEM_FLAG_MAP.items()}
+_REV_SYSTEM_FLAG_MAP_LOWER = {v.lower(): k for k, v in SYSTEM_FLAG_MAP.items()}
 
 # RFC 6154 SPECIAL-USE mailbox attributes. Maps folder names (matching
 # as_email_service conventions) to their IMAP special-use attribute.
@@ -123,8 +124,10 @@ def flag_to_seq(flag: str) -> str:
     Raises:
         No: the flag is a keyword that can not be an MH sequence name.
     """
-    if flag in REV_SYSTEM_FLAG_MAP:
-        return REV_SYSTEM_FLAG_MAP[flag]
+    # NOTE: System flags are case-insensitive (`\seen` is `\Seen`.)
+    #
+    if flag[:1] == "\\" and flag.lower() in _REV_SYSTEM_FLAG_MAP_LOWER:
+        return _REV_SYSTEM_FLAG_MAP_LOWER[flag.lower()]
 
     # A keyword is stored as the MH sequence of the same name, one
     # `<name>: <message numbers>` line in the folder's `.mh_sequences`. With
